@@ -4,9 +4,9 @@ import json, glob, os
 from . import VERIF
 
 SPECS = {"C01": "TlvTag, T3Tag, T4Tag", "C02": "TlvTag, T3Tag, T4Tag", "C03": "TlvTag, T3Tag, T4Tag", "C04": "NfcDep",
-         "C05": "LlcpDlc, LlcpConn", "C06": "Snep, Handover", "C07": "Robust", "C08": "TagRead, TagReadRef", "C09": "LlcpLife",
+         "C05": "LlcpDlc, LlcpConn, LlcpWindow", "C06": "Snep, Handover", "C07": "Robust", "C08": "TagRead, TagReadRef", "C09": "LlcpLife",
          "C10": "LlcpCollect", "C11": "LlcpPdu", "C12": "IsoDep", "C13": "DriverErr", "C14": "HostFrame, Crc14443",
-         "C15": "ClfLock (+ extracted CallSites)", "C16": "TagCmd", "C17": "LlcpAddr", "C18": "ClfConnect, ClfSense",
+         "C15": "ClfLock (+ extracted CallSites)", "C16": "TagCmd", "C17": "LlcpAddr, LlcpResolve", "C18": "ClfConnect, ClfSense",
          "C19": "P2pNeg", "C20": "TagAuth"}
 BEGIN, END = "<!-- ASBUILT-BEGIN -->", "<!-- ASBUILT-END -->"
 
